@@ -310,6 +310,33 @@ func endpointValues(c *core.Ctx) {
 				}
 			}
 			c.Check(okName, "createEndpointSlices skips ports of another name", at(c, s.Instr), "", "no `svcPort.Name != *epPort.Name → continue` before the endpoint is built")
+			// exact: an endpoint is built for a slice port iff the protocol matches and not (the service port is named and the names differ)
+			if pl := core.InnermostLoop(fn, s.Instr.Block()); pl != nil {
+				// the ports loop is the loop around the endpoints loop
+				var ports *core.Loop
+				for _, l := range core.Loops(fn) {
+					if l.Blocks[pl.Header] && l.Header != pl.Header && (ports == nil || len(l.Blocks) < len(ports.Blocks)) {
+						ports = l
+					}
+				}
+				if ports != nil && ports.Body() != nil {
+					t := core.ExtractTableFrom(fn, ports.Body(), func(b *ssa.BasicBlock) bool { return ports.Blocks[b] && b != ports.Header })
+					mm := matchers{
+						"protoDiff": has("Protocol", " != "),
+						"named":     has(`svcPort.Name != "")`),
+						"nameDiff":  func(k string) bool { return strings.Contains(k, "svcPort.Name != ") && !strings.Contains(k, `""`) },
+					}
+					cond, okc := t.BlockCond(pl.Header)
+					if t.Err != "" || !okc {
+						c.Undecided("createEndpointSlices port filter", at(c, s.Instr), fmt.Sprintf("table error %q, header cond available: %v, ports header b%d, endpoints header b%d, root b%d", t.Err, okc, ports.Header.Index, pl.Header.Index, ports.Body().Index))
+					} else if bd, _, dup := bindDeps(t, cond, mm); dup != "" || len(missingBound(bd, mm)) > 0 {
+						c.Violated("createEndpointSlices port filter", at(c, s.Instr), fmt.Sprintf("the port filter does not depend on %v %s", missingBound(bd, mm), dup))
+					} else {
+						ok, diff, _ := t.Compare(cond, bd, func(v map[string]bool) bool { return !v["protoDiff"] && !(v["named"] && v["nameDiff"]) }, nil)
+						c.Check(ok, "createEndpointSlices port filter", at(c, s.Instr), "endpoints of a slice port are used iff the protocol matches and a named service port has the same name", diff)
+					}
+				}
+			}
 		}
 	}
 	if fn := c.Fn("converters/utils", "CreateEndpoints"); fn != nil {
@@ -889,25 +916,180 @@ func rebalanceStructure(c *core.Ctx) {
 			maxOK = true
 		}
 	}
+	// exact update conditions: the scaled weight flows into the min/max phi exactly from the block reached under the test
+	var scaleLoop *core.Loop
+	for _, s := range core.CallsNamed(fn, false, "converters/utils.gcd") {
+		scaleLoop = core.InnermostLoop(fn, s.Instr.Block())
+	}
+	for _, b := range fn.Blocks {
+		if scaleLoop == nil || !scaleLoop.Blocks[b] {
+			continue
+		}
+		for _, in := range b.Instrs {
+			ph, ok := in.(*ssa.Phi)
+			if !ok || ph.Type().String() != "int" {
+				continue
+			}
+			for i, e := range ph.Edges {
+				ke := core.Key(e)
+				if !(strings.Contains(ke, ".Weight * ") && strings.Contains(ke, " / ")) || strings.HasPrefix(ke, "phi{") {
+					continue
+				}
+				if ph.Comment == "gcdClusterWeight" || strings.Contains(core.Key(ph), "utils.gcd(") {
+					continue // the gcd accumulator takes the first scaled weight as is
+				}
+				pred := b.Preds[i]
+				l := core.InnermostLoop(fn, pred)
+				if l == nil || l.Body() == nil {
+					continue
+				}
+				t := core.ExtractTableFrom(fn, l.Body(), func(bb *ssa.BasicBlock) bool { return l.Blocks[bb] && bb != l.Header })
+				cond, okc := t.BlockCond(pred)
+				if t.Err != "" || !okc {
+					c.Undecided("min/max update condition", at(c, ph), "table: "+t.Err)
+					continue
+				}
+				mm := matchers{
+					"lenZero": has(".Length == 0)"), "wZero": func(k string) bool { return strings.HasSuffix(k, ".Weight == 0)") },
+					"lt":     func(k string) bool { return strings.Contains(k, " < ") && !strings.HasSuffix(k, " < 0)") },
+					"unset":  func(k string) bool { return strings.HasSuffix(k, " < 0)") },
+					"gt":     func(k string) bool { return strings.Contains(k, " > ") && !strings.HasSuffix(k, " > 0)") && !strings.HasSuffix(k, " > 1)") },
+					"gcdSet": func(k string) bool { return strings.HasSuffix(k, " > 0)") },
+				}
+				bd, _, dup := bindDeps(t, cond, mm)
+				if dup != "" {
+					c.Undecided("min/max update condition", at(c, ph), "ambiguous: "+dup)
+					continue
+				}
+				isMin := cond.DependsOn(indexOfAtom(t, mm["lt"]))
+				if isMin {
+					ok, diff, _ := t.Compare(cond, bd, func(v map[string]bool) bool { return !v["lenZero"] && !v["wZero"] && (v["lt"] || v["unset"]) }, nil)
+					c.Check(ok, "the minimum takes a scaled weight exactly when it is smaller or the minimum is unset", at(c, ph), "", diff)
+				} else {
+					ok, diff, _ := t.Compare(cond, bd, func(v map[string]bool) bool { return !v["lenZero"] && !v["wZero"] && v["gt"] }, nil)
+					c.Check(ok, "the maximum takes a scaled weight exactly when it is greater", at(c, ph), "", diff)
+				}
+			}
+		}
+	}
 	c.Check(minOK, "the minimum is lowered when a scaled weight is smaller", c.Pos(fn.Pos()), "", "no `clusterWeight < minWeight` test on the scaled weight")
 	c.Check(maxOK, "the maximum is raised when a scaled weight is greater", c.Pos(fn.Pos()), "", "no `clusterWeight > maxWeight` test on the scaled weight")
-	// 5. final stores
+	// 5. final stores: the overflow factor is the value compared with 1; only the overflowing branch divides by it
+	var factor ssa.Value
+	for _, b := range fn.Blocks {
+		if ifi, ok := b.Instrs[len(b.Instrs)-1].(*ssa.If); ok {
+			if bo, ok := ifi.Cond.(*ssa.BinOp); ok && bo.Op.String() == ">" && core.Key(bo.Y) == "1" {
+				factor = bo.X
+			}
+		}
+	}
+	dividesByFactor := func(v ssa.Value) bool {
+		found := false
+		seen := map[ssa.Value]bool{}
+		var walk func(x ssa.Value, d int)
+		walk = func(x ssa.Value, d int) {
+			if x == nil || seen[x] || d > 8 {
+				return
+			}
+			seen[x] = true
+			switch y := x.(type) {
+			case *ssa.BinOp:
+				if y.Op.String() == "/" && factor != nil && y.Y == factor {
+					found = true
+				}
+				walk(y.X, d+1)
+				walk(y.Y, d+1)
+			case *ssa.Convert:
+				walk(y.X, d+1)
+			case *ssa.Phi:
+				for _, e := range y.Edges {
+					walk(e, d+1)
+				}
+			}
+		}
+		walk(v, 0)
+		return found
+	}
 	var div, plain int
 	for _, st := range fieldStores(fn, false, "converters/utils.WeightCluster", "Weight") {
 		over := guardedBy(st, has(" > 1)"), true)
 		notOver := guardedBy(st, has(" > 1)"), false)
-		l := sliceLeaves(c.Env, st.Val, 0)
-		_ = l
 		k := core.Key(st.Val)
 		switch {
 		case over:
 			div++
-			c.Check(strings.Contains(k, " / ") || strings.Contains(k, "phi{"), "an overflowing weight is divided by the overflow factor", at(c, st), "", "stored value "+k)
+			c.Check(dividesByFactor(st.Val), "an overflowing weight is divided by the overflow factor", at(c, st), "", "on the `factor > 1` branch the stored value `"+k+"` is not divided by the factor: weights above 256 are written")
+			// the floor of 1 for a positive configured weight that rounds to zero
+			floor := false
+			if ph, ok := st.Val.(*ssa.Phi); ok {
+				for i, e := range ph.Edges {
+					if core.Key(e) == "1" {
+						pred := ph.Block().Preds[i]
+						g1, g2 := false, false
+						for _, g := range core.ControllingEdges(pred) {
+							kk := core.Key(g.If.Cond)
+							if strings.HasSuffix(kk, " == 0)") && g.Branch {
+								g1 = true
+							}
+							if strings.HasSuffix(kk, ".Weight > 0)") && g.Branch {
+								g2 = true
+							}
+						}
+						floor = g1 && g2
+					}
+				}
+			}
+			c.Check(floor, "a positive configured weight never rounds down to zero", at(c, st), "", "no `propWeight = 1` under `propWeight == 0 && cl.Weight > 0`: a group with a small share gets weight 0 and no traffic although its configured weight is not zero")
 		case notOver:
 			plain++
+			c.Check(!dividesByFactor(st.Val), "a weight that fits is written as computed", at(c, st), "", "the value on the `factor <= 1` branch is divided by the factor (the branches are swapped)")
 		default:
 			c.Violated("final weight is chosen by the overflow factor", at(c, st), "a weight is written back outside both branches of `weightFactor > 1`")
 		}
 	}
 	c.Check(div == 1 && plain == 1, "both branches write the group weight back", c.Pos(fn.Pos()), "", fmt.Sprintf("%d under factor > 1, %d otherwise", div, plain))
+}
+
+func indexOfAtom(t *core.Table, m func(string) bool) int {
+	for i, a := range t.Atoms {
+		if m(core.StripVersion(a)) {
+			return i
+		}
+	}
+	return -1
+}
+
+func init() {
+	addRule("C07", &core.Rule{ID: "C07.backend-path-maps", Floor: 4, Run: backendPathMaps,
+		Doc: "WriteBackendMaps gives every path of a backend that needs ACLs an entry `host path -> path id` (the id the backend's ACLs use): the key is the path's own host name (the <default> literal for default-host paths, in the default-host map), the value the path's own ID, the host path the one found by that path's link; both maps are stored on the backend."})
+}
+
+func backendPathMaps(c *core.Ctx) {
+	fn := c.Fn("haproxy", "config.WriteBackendMaps")
+	if fn == nil {
+		return
+	}
+	n := 0
+	for _, s := range core.CallsNamed(fn, false, "(*haproxy/types.HostsMap).AddHostnamePathMapping") {
+		n++
+		a := s.Common().Args // map, hostname, hostpath, value
+		isDef := guardedBy(s.Instr, has("IsDefaultHost("), true)
+		kind := map[bool]string{true: "default-host", false: "named-host"}[isDef]
+		lv := sliceLeaves(c.Env, a[3], 0)
+		c.Check(leavesContain(lv, ".ID") && (strings.HasSuffix(core.Key(a[3]), ".ID") || leavesContain(lv, "Paths[")), "the "+kind+" entry maps to the path's own id", at(c, s.Instr), "", "value "+core.Key(a[3]))
+		if isDef {
+			c.Check(core.IsConstString(a[1], "<default>") || strings.Contains(core.Key(a[1]), "DefaultHost"), "default-host paths are keyed by the <default> literal", at(c, s.Instr), "", "key "+core.Key(a[1]))
+		} else {
+			c.Check(strings.Contains(core.Key(a[1]), "Hostname("), "named-host paths are keyed by their host name", at(c, s.Instr), "", "key "+core.Key(a[1]))
+			c.Check(guardedBy(s.Instr, has("IsDefaultHost("), false), "named-host entries exclude default-host paths", at(c, s.Instr), "", "not on the else branch")
+		}
+		c.Check(strings.Contains(core.Key(a[2]), "FindPathWithLink("), "the "+kind+" entry uses the host path found by this path's link", at(c, s.Instr), "", "host path "+core.Key(a[2]))
+		c.Check(guardedBy(s.Instr, has("Backend).NeedACL("), true), "the "+kind+" entry exists when the backend needs ACLs", at(c, s.Instr), "", "not under NeedACL()")
+	}
+	c.Check(n == 2, "WriteBackendMaps entries", c.Pos(fn.Pos()), "", fmt.Sprint(n))
+	for _, f := range []string{"PathsMap", "PathsDefaultHostMap"} {
+		sts := fieldStores(fn, false, "haproxy/types.Backend", f)
+		ok := len(sts) == 1 && strings.Contains(core.Key(sts[0].Val), "AddMap(")
+		c.Check(ok, "Backend."+f+" receives the map that was filled", c.Pos(fn.Pos()), "", fmt.Sprintf("%d stores", len(sts)))
+	}
 }
